@@ -141,7 +141,7 @@ def run_parallel(binname, sub, cases, tag, procs=16):
 
 class C08(Prop):
     pid = "C08"
-    generators = ["jobapi"]
+    generators = ["jobapi", "sourceprio"]
     coq_targets = ["Run/EvalJob.vo", "Run/EvalC08.vo"]
     bins = ["h_job", "h_quit", "h_cli", "simchild"]
     level = "proof"
